@@ -2,6 +2,11 @@
 // the documented behaviour of the std function) ------------------------------------------------
 pub assume_specification<T>[::std::option::Option::<T>::or](a: Option<T>, b: Option<T>) -> (r: Option<T>)
     ensures r == (match a { Some(x) => Some(x), None => b });
+pub assume_specification<T, P: FnOnce(&T) -> bool>[::std::option::Option::<T>::filter](o: Option<T>, p: P) -> (r: Option<T>)
+    where P: core::marker::Destruct, T: core::marker::Destruct
+    requires o is Some ==> call_requires(p, (&o->0,)),
+    ensures o is None ==> r is None,
+        o is Some ==> ((r == o && call_ensures(p, (&o->0,), true)) || (r is None && call_ensures(p, (&o->0,), false)));
 pub assume_specification<T, U>[::std::option::Option::<T>::and](a: Option<T>, b: Option<U>) -> (r: Option<U>)
     ensures r == (match a { Some(_) => b, None => None::<U> });
 pub assume_specification[u64::abs_diff](a: u64, b: u64) -> (r: u64)
